@@ -65,7 +65,7 @@ PROPS['C02'] = dict(level='proof', steps=[V('stream'), V('reader'), E3('c02-read
 PROPS['C06'] = dict(level='proof', steps=[V('keys'), V('crypt'), K('kani_permission_word'), E3('c06-interop')],
                 title='Standard security handler agrees with ISO 32000 algorithms',
                 technique='Verus contracts: the real key-derivation functions against spec functions written from ISO 32000-1 7.6.2-7.6.3 over an uninterpreted MD5; RC4 against its definition; interoperability with an independent reference handler (own MD5/SHA-2/AES/RC4) over an enumerated configuration family',
-                text='proved for all inputs (Verus): Algorithm 1 and 1.A (per-object key, all four crypt filters), Algorithm 2 (file key R2-4), Algorithm 3 (O value), Algorithm 4 and 5 (U value; the first 16 bytes for R3/4), Algorithm 6 and 7 (user / owner authentication: Ok exactly when the recomputed U matches, the owner path through the user password recovered from O; lemma: Algorithm 7 inverts Algorithm 3), Permissions::p_value reserved bits, RC4 = KSA/PRGA, PKCS#5 padding. Algorithms 2.A, 2.B, 8-13, password preparation, crypt-filter selection and the encryption dictionary are covered by the bounded interoperability family only.',
+                text='proved for all inputs (Verus): Algorithm 1 and 1.A (per-object key, all four crypt filters), Algorithm 2 (file key R2-4), Algorithm 3 (O value), Algorithm 4 and 5 (U value; the first 16 bytes for R3/4), Algorithm 6 and 7 (user / owner authentication: Ok exactly when the recomputed U matches, the owner path through the user password recovered from O; lemma: Algorithm 7 inverts Algorithm 3), Algorithms 2.A, 11 and 12 over an uninterpreted Algorithm 2.B and AES-256-CBC (which password bytes, which salt slices of U and O, owner before user, Perms validation only on the user path), Permissions::p_value reserved bits, RC4 = KSA/PRGA, PKCS#5 padding. Algorithms 2.B, 8-10, 13, password preparation, crypt-filter selection and the encryption dictionary are covered by the bounded interoperability family only.',
                 note='MD5 uninterpreted (md-5 crate assumed to compute RFC 1321); shims for RustCrypto Digest API, to_le_bytes, sub-slices, rand; the trailer /ID accessor chain is dropped from the verified text')
 
 PROPS['C08'] = dict(level='other', steps=[E3('c08-orders', needs_seq_bin=True, timeout=3000)],
